@@ -77,10 +77,13 @@ type SignalCase struct {
 	// NotifierEdits: what the injected SignalNotifier does to the signal list
 	// it is given (its own parameter): 0 only reads it, 1 filters it in place
 	// (drops SIGQUIT), 2 clears it, 3 overwrites it with SIGHUP.
-	NotifierEdits int   `json:"notifier_edits,omitempty"`
-	Pre           []int `json:"pre"`  // non-shutdown signals before the shutdown signal
-	Shut          int   `json:"shut"` // the shutdown signal
-	Post          []int `json:"post"` // signals after it
+	NotifierEdits int `json:"notifier_edits,omitempty"`
+	// Again: after Handle has returned, the same handler handles a second
+	// shutdown signal.
+	Again bool  `json:"again,omitempty"`
+	Pre   []int `json:"pre"`  // non-shutdown signals before the shutdown signal
+	Shut  int   `json:"shut"` // the shutdown signal
+	Post  []int `json:"post"` // signals after it
 }
 
 var sigTable = map[int]os.Signal{
@@ -381,7 +384,52 @@ func checkSignal(c SignalCase) error {
 		if (status == osutil.ExitCodeSuccess) != allNil {
 			v.fail("Handle returned %d with outcomes %v (0 nil, 1 error, 2 panic): success is allowed only if every Shutdown returned nil", status, c.Outcomes)
 		}
+		if !c.Again || v.err() != nil {
+			return
+		}
+		// The same handler handles a second shutdown (a handler object that
+		// outlives one Handle call): the same services, the same order.
+		mu.Lock()
+		calls = calls[:0]
+		mu.Unlock()
+		go func() {
+			defer func() {
+				if r := recover(); r != nil {
+					v.fail("the second Handle call panicked: %v", r)
+					done <- -1
+				}
+			}()
+			done <- h.Handle(context.Background())
+		}()
+		synctest.Wait()
+		n.mu.Lock()
+		ch = n.c
+		n.mu.Unlock()
+		ch <- sigOf(c.Shut)
+		synctest.Wait()
+		if len(done) != 1 {
+			time.Sleep(5 * time.Second)
+			synctest.Wait()
+		}
+		if len(done) != 1 {
+			v.fail("the second Handle call on the same handler did not return after %v", sigOf(c.Shut))
+			return
+		}
+		status = <-done
+		mu.Lock()
+		got = slices.Clone(calls)
+		mu.Unlock()
+		if !slices.Equal(got, want) {
+			v.fail("second Handle call on the same handler: Shutdown calls (service indexes) = %v, want every registered service once in reverse order %v", got, want)
+			return
+		}
+		if (status == osutil.ExitCodeSuccess) != allNil {
+			v.fail("the second Handle call returned %d with outcomes %v", status, c.Outcomes)
+		}
 	})
+	if c.Again {
+		vp.Class("signal:handler-used-for-a-second-shutdown")
+	}
 	nonNil := 0
 	for _, o := range c.Outcomes {
 		if o != 0 {
@@ -421,6 +469,7 @@ var signalProp = vp.Register(vp.Prop[SignalCase]{
 			SvcTypes:        rapid.SliceOfN(rapid.SampledFrom([]int{0, 0, 0, 1, 2, 3}), 0, 4).Draw(t, "svctypes"),
 			CancelledParent: rapid.IntRange(0, 5).Draw(t, "cancelled") == 0,
 			NotifierEdits:   rapid.SampledFrom([]int{0, 0, 0, 1, 2, 3}).Draw(t, "edits"),
+			Again:           rapid.IntRange(0, 3).Draw(t, "again") == 0,
 			Pre:             rapid.SliceOfN(rapid.OneOf(rapid.SampledFrom([]int{1, 10, 12, 13, 17, 28}), rapid.SampledFrom([]int{0, 32, 33, 34, 35, 47, 64, 66, 67, 79, 130, 131, 143, 258, 259, 271, 1000, 1001, 1002}), rapid.IntRange(16, 64)), 0, 6).Draw(t, "pre"),
 			Shut:            rapid.SampledFrom([]int{2, 3, 15}).Draw(t, "shut"),
 			Post:            rapid.SliceOfN(rapid.SampledFrom([]int{1, 2, 15, 10}), 0, 3).Draw(t, "post"),
